@@ -196,6 +196,7 @@ func (c *Client) startListener() {
 		defer close(c.done)
 
 		for ctx.Err() == nil {
+			verifHook("cli.listen", c)
 			channel, err := c.getOrBuildChannel(ctx)
 			if err != nil {
 				log.Printf("client: listen: %v", err)
